@@ -122,7 +122,9 @@ Definition throttle_check (c : hctl) (v batch now : N) : hctl * hres :=
 (** ** perform_checking_for_concurrency_metric *)
 Definition conc_check (c : hctl) (v : N) : hctl * hres :=
   match hc_conc c v with
-  | None => (mkHC (hc_rule c) (hc_time c) (hc_tok c) (fset (hc_conc c) v 0), HPass)
+  | None =>   (* first sight: the counter is created at 0, then the value is checked like any other *)
+      let c' := mkHC (hc_rule c) (hc_time c) (hc_tok c) (fset (hc_conc c) v 0) in
+      if 1 <=? thr_of (hc_rule c) v then (c', HPass) else (c', HBlock 1)
   | Some cur => if cur + 1 <=? thr_of (hc_rule c) v then (c, HPass) else (c, HBlock (cur + 1))
   end.
 
